@@ -4,6 +4,9 @@ func branch(pc ProgramCounter, b ProgramCounter, C bool, bitmask Bitmask, instru
 	switch {
 	case !C:
 		return ExitContinue, pc
+	case int(b) >= len(instruction):
+		// a target outside the code is not the start of a basic block
+		return ExitPanic, pc
 	case !bitmask.IsStartOfBasicBlock(b) && instruction.isOpcodeValid(b):
 		return ExitPanic, pc
 	default:
